@@ -1,6 +1,7 @@
 package props
 
 import (
+	"fmt"
 	"go/types"
 	"sort"
 	"strings"
@@ -282,6 +283,119 @@ func c13R3(p *engine.Prog, r *engine.Report) {
 		r.Check(ok, "C13-R3", "backedMemBatch."+name+"|touch every staged key after a successful write", p.Pos(f.Pos()), "loop over b.touched behind err == nil", "keys written by a batch are not all marked touched after the write (reads fall through to the base)")
 	}
 	r.Floor("C13-R3", 12, "4 writers + 2 siblings + 2 readers + 4 batch")
+	// ---------------- R5: a cached view is stored under the key it is looked up by
+	if f := mustFunc(p, r, "core/appstate", "AppState.Readonly"); f != nil {
+		h := ssa.Value(f.Params[1])
+		nLook, nStore, ok := 0, 0, true
+		var detail []string
+		for _, b := range f.Blocks {
+			for _, ins := range b.Instrs {
+				switch x := ins.(type) {
+				case *ssa.Lookup:
+					if _, fld, okF := engine.FieldOf(engine.Origin(x.X)); okF && fld == "readonlyStateCache" {
+						nLook++
+						if engine.Origin(engine.Unwrap(x.Index)) != h {
+							ok = false
+							detail = append(detail, "looked up by "+engine.PathOf(x.Index))
+						}
+					}
+				case *ssa.MapUpdate:
+					// the map that ends up in the cache field: updated in place or a fresh map stored into it
+					target := false
+					if _, fld, okF := engine.FieldOf(engine.Origin(x.Map)); okF && fld == "readonlyStateCache" {
+						target = true
+					}
+					if mm, isMk := engine.Origin(x.Map).(*ssa.MakeMap); isMk && mm.Referrers() != nil {
+						for _, ref := range *mm.Referrers() {
+							if st, isSt := ref.(*ssa.Store); isSt && st.Val == ssa.Value(mm) {
+								if _, fld, okF := engine.FieldOf(st.Addr); okF && fld == "readonlyStateCache" {
+									target = true
+								}
+							}
+						}
+					}
+					if target {
+						nStore++
+						if engine.Origin(engine.Unwrap(x.Key)) != h {
+							ok = false
+							detail = append(detail, "stored under "+engine.PathOf(x.Key))
+						}
+					}
+				}
+			}
+		}
+		r.Check(ok && nLook >= 1 && nStore >= 1, "C13-R5", "AppState.Readonly|view cached under the requested height", p.Pos(f.Pos()), fmt.Sprintf("%d lookups and %d stores keyed by the height parameter", nLook, nStore), "the cache is not keyed by the requested height ("+strings.Join(detail, "; ")+"): a later request for another height is answered with this view")
+	}
+	r.Floor("C13-R5", 1, "Readonly")
+	// ---------------- R6: the merged iterator never skips a live base key: the base cursor advances only
+	// past a key that was emitted, that equals the emitted view key (shadowed) or that the view touched
+	if f := mustFunc(p, r, "database", "iterator.Next"); f != nil {
+		isPermKey := func(v ssa.Value) bool {
+			for x := range engine.BackSlice(v, engine.DefaultSlice) {
+				if c, ok := x.(*ssa.Call); ok && c.Call.IsInvoke() && c.Call.Method.Name() == "Key" {
+					if _, fld, okF := engine.FieldOf(engine.Origin(c.Call.Value)); okF && fld == "permanentIter" {
+						return true
+					}
+				}
+			}
+			return false
+		}
+		gEq := guardsWhere(f, func(cond ssa.Value) (bool, bool, string) {
+			x, y, isEq, ok := eqCond(cond)
+			if !ok {
+				return false, false, ""
+			}
+			for _, pr := range [][2]ssa.Value{{x, y}, {y, x}} {
+				k, isK := engine.ConstInt(pr[1])
+				c, isC := engine.Unwrap(pr[0]).(*ssa.Call)
+				if isK && k == 0 && isC && (engine.CallIs(c, "bytes.Compare") || engine.CallIs(c, "bytes.Equal")) && (isPermKey(c.Call.Args[0]) || isPermKey(c.Call.Args[1])) {
+					return true, isEq, "view key == base key"
+				}
+			}
+			return false, false, ""
+		})
+		gTouched := guardsWhere(f, func(cond ssa.Value) (bool, bool, string) {
+			c, neg := stripNot(cond)
+			cc, ok := c.(*ssa.Call)
+			if !ok || !engine.CallNameIs(cc, "Contains") {
+				return false, false, ""
+			}
+			args := engine.CallArgs(cc)
+			if len(args) < 2 {
+				return false, false, ""
+			}
+			if _, fld, okF := engine.FieldOf(engine.Origin(args[0])); !okF || fld != "touched" {
+				return false, false, ""
+			}
+			for _, a := range args[1:] {
+				if isPermKey(a) {
+					return true, !neg, "base key touched by the view"
+				}
+			}
+			return false, false, ""
+		})
+		n := 0
+		for _, c := range callsTo(f, "database.iterator.nextPermanent") {
+			n++
+			emitted := false
+			for _, ins := range c.Block().Instrs {
+				if ins == ssa.Instruction(c) {
+					break
+				}
+				if st, ok := ins.(*ssa.Store); ok {
+					if _, fld, okF := engine.FieldOf(st.Addr); okF && fld == "key" && isPermKey(st.Val) {
+						emitted = true
+					}
+				}
+			}
+			ok := emitted || (len(gEq) > 0 && engine.OnlyThroughPass(f, c.Block(), gEq)) || (len(gTouched) > 0 && engine.OnlyThroughPass(f, c.Block(), gTouched))
+			r.Check(ok, "C13-R6", uniq(r, "iterator.Next|base cursor advances only past an emitted, shadowed or touched key"), p.InstrPos(c), "emit / view key == base key / touched.Contains(base key)", "the base cursor advances although its current key was neither emitted nor shadowed nor touched: range iteration over the view silently skips a live key of the base store (Get still finds it)")
+		}
+		if n < 3 {
+			r.Und("C13-R6", "iterator.Next|advances of the base cursor", p.Pos(f.Pos()), fmt.Sprintf("%d found (3 confirmed by reading)", n))
+		}
+	}
+	r.Floor("C13-R6", 3, "three advances in Next")
 }
 
 // calleeShape: the sorted multiset of resolved callee names of f (shape signature for siblings).
